@@ -211,14 +211,14 @@ class Ctx:
         cov.update(self.notes)
         ev = {"property_id": self.pid, "tier": self.tier, "seed": self.seed, "level": self.level,
               "coverage": cov, "assumptions": self.assumptions, "wall_s": round(wall, 2), "violations": nviol}
-        os.makedirs(os.path.join(common.VERIF, "evidence"), exist_ok=True)
-        with open(os.path.join(common.VERIF, "evidence", self.pid + ".json"), "w") as f:
+        os.makedirs(os.path.join(common.OUT, "evidence"), exist_ok=True)
+        with open(os.path.join(common.OUT, "evidence", self.pid + ".json"), "w") as f:
             json.dump(ev, f, indent=1, default=str)
         for kf, (n, ex) in sorted(self.kf_hits.items()):
             print("KNOWN-FINDING: property=%s %s -- %s (%d cases this run)" % (self.pid, kf, self.known[(self.pid, kf)], n))
         rc = 0
         if nviol:
-            os.makedirs(os.path.join(common.VERIF, "replay"), exist_ok=True)
+            os.makedirs(os.path.join(common.OUT, "replay"), exist_ok=True)
             seen = set()
             k = 0
             for clause, case in self.violations:
@@ -228,7 +228,7 @@ class Ctx:
                 k += 1
                 if k > 8:
                     break
-                path = os.path.join(common.VERIF, "replay", "%s-%d.json" % (self.pid, k))
+                path = os.path.join(common.OUT, "replay", "%s-%d.json" % (self.pid, k))
                 with open(path, "w") as f:
                     json.dump({"property": self.pid, "clause": clause, "case": case}, f, indent=1, default=str)
                 print("VIOLATION property=%s replay=%s clause=%s" % (self.pid, path, clause))
